@@ -324,3 +324,120 @@ func ruleG5(p *Prog, r *Report) {
 	}
 	r.Floor(R, "functions writing package variables", 1, n)
 }
+
+// G6 arrival-independent outcome: the launcher receives worker results in arrival order. Whatever it *decides* while
+// receiving must not depend on that order: a return taken inside the receive loop because of the content of one
+// received result (its error) makes the returned error - and everything applied from earlier results, such as cache
+// fills - depend on which worker finished first. (With one worker arrival order is queue order, so the outcome also
+// differs between worker counts.) An arrival-independent launcher drains all results and then decides in key order.
+func ruleG6(p *Prog, r *Report) {
+	const R = "G6"
+	n := 0
+	seen := map[*ssa.Function]bool{}
+	for _, g := range goStatements(p) {
+		launcher := g.Parent()
+		if launcher == nil || seen[launcher] {
+			continue
+		}
+		callee := p.goCallee(g)
+		if callee == nil {
+			continue
+		}
+		// the result channel: SendOnly parameter of the worker
+		var results ssa.Value
+		sig := callee.Signature
+		for i, a := range g.Call.Args {
+			if i >= sig.Params().Len() {
+				continue
+			}
+			if ch, ok := sig.Params().At(i).Type().Underlying().(*types.Chan); ok && ch.Dir() == types.SendOnly {
+				results = a
+			}
+		}
+		if results == nil {
+			continue
+		}
+		seen[launcher] = true
+		if containsFold(launcher.Name(), "nondeterministic") {
+			continue // order-relaxed by contract: applies results (and stops) in arrival order on purpose
+		}
+		n++
+		name := p.Name(launcher)
+		// receives from the result channel in the launcher
+		var bad ssa.Instruction
+		eachInstr(launcher, func(in ssa.Instruction) {
+			u, ok := in.(*ssa.UnOp)
+			if !ok || u.Op != token.ARROW || !sameChan(u.X, results) {
+				return
+			}
+			head := loopHeadOf(in.Block())
+			if head == nil {
+				return
+			}
+			// returns inside the receive loop that are control dependent on the received value
+			for _, ret := range returnsOf(launcher) {
+				if !blockInLoopOrExitOf(ret.Block(), head, in.Block()) {
+					continue
+				}
+				dep := controlDependsOnValue(launcher, ret.Block(), func(v ssa.Value) bool {
+					return derivesFromValue(v, u, 0)
+				})
+				if dep {
+					bad = ret
+				}
+			}
+		})
+		cons := "arrival-order-exit:" + name
+		if bad != nil {
+			r.Bad(R, cons, p.InstrPos(bad), "the launcher returns from inside the receive loop because of the content of one received result: which error is returned, and which earlier results were already applied (cache fills, collected data), depends on which worker finished first and differs from the one-goroutine run")
+		} else {
+			r.Ok(R, cons, p.Pos(launcher.Pos()), "no exit of the receive loop depends on the content of an individual result")
+		}
+	}
+	r.Floor(R, "launchers receiving worker results", 2, n)
+}
+
+// blockInLoopOrExitOf: b is dominated by the block of the receive and does not lie after the loop on the normal path
+// (it is inside the loop body or an early-exit block hanging off it).
+func blockInLoopOrExitOf(b, head, recv *ssa.BasicBlock) bool {
+	if !recv.Dominates(b) {
+		return false
+	}
+	return true
+}
+
+// derivesFromValue: v is computed from src through field/element accesses, loads and comparisons.
+func derivesFromValue(v, src ssa.Value, depth int) bool {
+	if depth > 8 || v == nil {
+		return false
+	}
+	if v == src || canon(v) == src {
+		return true
+	}
+	switch x := canon(v).(type) {
+	case *ssa.UnOp:
+		return derivesFromValue(x.X, src, depth+1)
+	case *ssa.FieldAddr:
+		return derivesFromValue(x.X, src, depth+1)
+	case *ssa.Field:
+		return derivesFromValue(x.X, src, depth+1)
+	case *ssa.BinOp:
+		return derivesFromValue(x.X, src, depth+1) || derivesFromValue(x.Y, src, depth+1)
+	case *ssa.Extract:
+		return derivesFromValue(x.Tuple, src, depth+1)
+	case *ssa.TypeAssert:
+		return derivesFromValue(x.X, src, depth+1)
+	case *ssa.ChangeInterface:
+		return derivesFromValue(x.X, src, depth+1)
+	case *ssa.Alloc:
+		// a local cell the received value was stored into
+		if x.Referrers() != nil {
+			for _, ref := range *x.Referrers() {
+				if st, ok := ref.(*ssa.Store); ok && st.Addr == ssa.Value(x) && derivesFromValue(st.Val, src, depth+1) {
+					return true
+				}
+			}
+		}
+	}
+	return false
+}
